@@ -3119,6 +3119,26 @@ fn gen_spawngrid(rng: &mut Rng, kind: u8, g: u64, seed: u64, full: bool) -> Scen
         ..Default::default()
     });
     sc.layers.push(Layer { slot: alt_slot, providers: vec![ProvSpec { id: "alt".into(), endpoint: Some("{{P}}/alt/v1/responses".into()), api_key: Some(KeySpec::Env(alt_name.into())), headers: vec![] }], ..Default::default() });
+    // the channel PROFILE: 0 every channel at once; 1 environment variables only - no configuration file, the registry stays empty,
+    // and the two other variables hold no credential (nobody names them: the children see them, model and code agree); 2 files only -
+    // none of the three fixed variables is set (thread path: the file's provider carries the key)
+    let profile = if kind == 4 { 0 } else { (g + kind as u64) % 3 };
+    match profile {
+        1 => {
+            sc.layers.clear();
+            for (k, v) in sc.env.iter_mut() {
+                if k == name || k == alt_name {
+                    *v = "not-a-credential-here".into();
+                }
+            }
+        }
+        2 => {
+            sc.env.retain(|(k, _)| !matches!(k.as_str(), "RIP_OPENRESPONSES_API_KEY" | "OPENAI_API_KEY" | "OPENROUTER_API_KEY"));
+            sc.thread = true;
+        }
+        _ => {}
+    }
+    let profile_name = ["all-channels", "env-only", "files-only"][profile as usize];
     match kind {
         0 => {
             sc.real_authority = g % 3 == 1;
@@ -3139,7 +3159,7 @@ fn gen_spawngrid(rng: &mut Rng, kind: u8, g: u64, seed: u64, full: bool) -> Scen
                 };
                 sc.spawns.push(grid_probe(vm, form, e, t + seed, name));
             }
-            sc.channel = "spawn-grid:tool+pipes".into();
+            sc.channel = format!("spawn-grid:tool+pipes ({profile_name})");
         }
         1 => {
             sc.real_authority = g % 5 == 2;
@@ -3155,7 +3175,7 @@ fn gen_spawngrid(rng: &mut Rng, kind: u8, g: u64, seed: u64, full: bool) -> Scen
                 }
             };
             sc.spawns.push(grid_probe(4, form, e, g + seed, name));
-            sc.channel = "spawn-grid:pty".into();
+            sc.channel = format!("spawn-grid:pty ({profile_name})");
         }
         3 => {
             // no bash on the authority's PATH: the shell tool's fallback (`$SHELL -c` / `sh -c`)
@@ -3173,7 +3193,7 @@ fn gen_spawngrid(rng: &mut Rng, kind: u8, g: u64, seed: u64, full: bool) -> Scen
                 };
                 sc.spawns.push(grid_probe(k % 2, form, (t / 2 + g) % N_ENV_KINDS, t + seed, name));
             }
-            sc.channel = "spawn-grid:shell-fallback (no bash)".into();
+            sc.channel = format!("spawn-grid:shell-fallback, no bash ({profile_name})");
         }
         _ => {
             sc.cli = true;
